@@ -265,6 +265,10 @@ pub fn run(tier: &str, seed: u64) -> Stats {
     let mut metas: Vec<Option<usize>> = vec![None, Some(0)];
     metas.extend((1..=40).step_by(if tier == "thorough" { 1 } else { 3 }).map(Some));
     metas.push(Some(1000));
+    // lengths around the LEB128 boundaries of the serialized length prefix (nonce 12 + tag 16 added)
+    for l in [99usize, 100, 101, 127, 128, 129, 16355, 16356, 16357, 16383, 16384, 16385] {
+        metas.push(Some(l));
+    }
     let rounds = if tier == "thorough" { 6 } else { 1 };
     // the two layers are independent: one thread each (plus one per round in the thorough tier)
     let fx = std::sync::Arc::new(fx);
